@@ -5,6 +5,9 @@ ROOT = os.path.dirname(os.path.dirname(os.path.abspath(__file__)))
 CORE, BIN, PY3, BS, EXPR, CONT = 'construct/core.py', 'construct/lib/binary.py', 'construct/lib/py3compat.py', 'construct/lib/bitstream.py', 'construct/expr.py', 'construct/lib/containers.py'
 MUTANTS = [
     # id, property, file, old, new
+    ('hex-decode-sizeof-leak', 'C12', CORE, "            try:\n                fmtstr = \"0%sX\" % (2 * self.subcon._sizeof(context, path))\n            except SizeofError:\n                fmtstr = \"X\"\n            return HexDisplayedInteger.new(obj, fmtstr)", "            return HexDisplayedInteger.new(obj, \"0%sX\" % (2 * self.subcon._sizeof(context, path)))"),
+    ('optional-macro', 'C12', CORE, "    return Select(subcon, Pass)", "    return Select(Pass, subcon)"),
+    ('int24ul-alias', 'C12', CORE, '    \"\"\"A 3-byte little-endian unsigned integer, as used in ancient file formats.\"\"\"\n    return BytesInteger(3, signed=False, swapped=True)', '    \"\"\"A 3-byte little-endian unsigned integer, as used in ancient file formats.\"\"\"\n    return BytesInteger(3, signed=False, swapped=False)'),
     ('nullstripped-step', 'C08', CORE, "            while end-unit >= 0 and data[end-unit:end] == pad:\n                end -= unit", "            while end-unit >= 0 and data[end-unit:end] == pad:\n                end -= 1"),
     ('nullstripped-tail', 'C08', CORE, "if tailunit and data[-tailunit:] == pad[:tailunit]:", "if tailunit and data[-tailunit:] == pad[-tailunit:]:"),
     ('nullstripped-plain-stream', 'C08', CORE, "            data = data[:end]\n        substream = BytesIOWithOffsets(data, stream, offset)", "            data = data[:end]\n        substream = BytesIOWithOffsets(data, stream, 0)"),
@@ -58,7 +61,7 @@ MUTANTS = [
     ('array-sizeof-keyerror-only', 'C05', CORE, "            count = evaluate(self.count, context)\n        except (KeyError, AttributeError):\n            raise SizeofError(\"cannot calculate size, key not found in context\", path=path)\n        return count * self.subcon._sizeof(context, path)",
      "            count = evaluate(self.count, context)\n        except KeyError:\n            raise SizeofError(\"cannot calculate size, key not found in context\", path=path)\n        return count * self.subcon._sizeof(context, path)"),
     ('flag-direct-read', 'C06', CORE, 'return stream_read(stream, 1, path) != b"\\x00"', 'return stream.read(1) != b"\\x00"'),
-    ('mapping-decode-except', 'C06', CORE, "            return self.decmapping[obj]\n        except (KeyError, TypeError):", "            return self.decmapping[obj]\n        except TypeError:"),
+    ('mapping-decode-except', 'C06', CORE, "            return self.decmapping[obj] # KeyError\n        except (KeyError, TypeError):", "            return self.decmapping[obj] # KeyError\n        except TypeError:"),
     ('array-self-store', 'C17', CORE, "        discard = self.discard\n        obj = ListContainer()\n        for i in range(count):", "        discard = self.discard\n        self.lastcount = count\n        obj = ListContainer()\n        for i in range(count):"),
     ('struct-parse-writes-parent', 'C17', CORE, "                    obj[sc.name] = subobj\n                    context[sc.name] = subobj\n            except StopFieldError:\n                break\n        return obj\n\n    def _build(self, obj, stream, context, path):\n        if obj is None:\n            obj = Container()",
      "                    obj[sc.name] = subobj\n                    context[sc.name] = subobj\n                    context._[sc.name] = subobj\n            except StopFieldError:\n                break\n        return obj\n\n    def _build(self, obj, stream, context, path):\n        if obj is None:\n            obj = Container()"),
